@@ -1,14 +1,30 @@
 package main
 
+// C05 stream: one request per case at the token / introspection / revocation / device_authorization endpoint of either
+// router.  The GRANT MATERIAL of every case is genuine (a real code of a completed authorization request with or without
+// PKCE, a real refresh / access token, an approved device code, a valid jwt-bearer assertion): it is produced through a TWIN
+// provider on the same storage that has every flag and capability switched on, so that at the provider under test only
+// client authentication, grant registration and the flags decide.  The request is described to the Lean driver as the abstract
+// request of Model/EndpointReq.lean: raw Basic user / password (as net/http's r.BasicAuth() reads them), r.Form / r.PostForm
+// as net/http parses them, and the answers url.QueryUnescape / the JWT parsers give (oracles).
+
 import (
 	"bufio"
-	"encoding/json"
+	"crypto/sha256"
+	"encoding/base64"
 	"fmt"
+	"io"
+	"log/slog"
+	"net/http"
+	"net/http/httptest"
 	"net/url"
+	"sort"
 	"strings"
 	"time"
 
+	jose "github.com/go-jose/go-jose/v4"
 	"github.com/zitadel/oidc/v3/pkg/oidc"
+	"github.com/zitadel/oidc/v3/pkg/op"
 
 	"verifharness/internal/hx"
 	"verifharness/internal/opbed"
@@ -17,29 +33,64 @@ import (
 
 func init() { streams["C05"] = c05Stream }
 
-// runCodeFlow drives authorize -> login -> callback for client fc and returns (code, verifier)
+// c05BedOn builds a provider (either router) on an EXISTING reference store (opbed.New always creates its own)
+func c05BedOn(cfg opbed.Config, st *refstore.Store) *opbed.Bed {
+	b := &opbed.Bed{Cfg: cfg, Store: st, CryptoKey: sha256.Sum256([]byte("verif-crypto-key")), SignKey: hx.Keys()[0]}
+	b.Storage = st.With(cfg.Caps)
+	oc := &op.Config{
+		CryptoKey:                b.CryptoKey,
+		DefaultLogoutRedirectURI: "https://op.example/logged-out",
+		CodeMethodS256:           cfg.S256,
+		AuthMethodPost:           cfg.Post,
+		AuthMethodPrivateKeyJWT:  cfg.PrivateKeyJWT,
+		GrantTypeRefreshToken:    cfg.Refresh,
+		SupportedClaims:          op.DefaultSupportedClaims,
+		DeviceAuthorization: op.DeviceAuthorizationConfig{
+			Lifetime: 5 * time.Minute, PollInterval: 5 * time.Second, UserFormPath: "/device", UserCode: op.UserCodeBase20,
+		},
+	}
+	p, err := op.NewProvider(oc, b.Storage, op.StaticIssuer(opbed.Issuer), op.WithLogger(c05Discard))
+	if err != nil {
+		panic(err)
+	}
+	b.Provider = p
+	if cfg.Router == "legacy" {
+		b.Handler = op.RegisterLegacyServer(op.NewLegacyServer(p, *op.DefaultEndpoints), op.AuthorizeCallbackHandler(p), op.WithFallbackLogger(c05Discard))
+	} else {
+		b.Handler = p
+	}
+	return b
+}
+
+// runCodeFlow drives authorize -> login -> callback for client fc (PKCE for public clients) and returns (code, verifier)
 func runCodeFlow(bed *opbed.Bed, fc *flowClient, scopes string) (code, verifier, redirect string) {
+	code, verifier, redirect, _ = c05CodeFlow(bed, fc, scopes, fc.c.Auth == oidc.AuthMethodNone)
+	return code, verifier, redirect
+}
+
+// c05CodeFlow: the same with PKCE on demand; also returns the id of the authorization request
+func c05CodeFlow(bed *opbed.Bed, fc *flowClient, scopes string, pkce bool) (code, verifier, redirect, authReqID string) {
 	redirect = fc.c.Redirects[0]
 	q := url.Values{"client_id": {fc.c.ID}, "redirect_uri": {redirect}, "response_type": {"code"}, "scope": {scopes}, "state": {"st"}}
-	if fc.c.Auth == oidc.AuthMethodNone {
+	if pkce {
 		verifier = "verifier-CCCCCCCCCCCCCCCCCCCCCCCCCCCCCCCCCCCCCCCCCCC"
 		q.Set("code_challenge", oidc.NewSHACodeChallenge(verifier))
 		q.Set("code_challenge_method", "S256")
 	}
 	resp := bed.Do(bed.Get("/authorize", q, ""))
 	if resp.Loc == nil {
-		return "", "", redirect
+		return "", "", redirect, ""
 	}
 	id := resp.Loc.Query().Get("authRequestID")
 	if id == "" {
-		return "", "", redirect
+		return "", "", redirect, ""
 	}
 	bed.Store.CompleteAuthRequest(id, "user1")
 	cb := bed.Do(bed.Get("/authorize/callback", url.Values{"id": {id}}, ""))
 	if cb.Loc != nil {
 		code = cb.Loc.Query().Get("code")
 	}
-	return code, verifier, redirect
+	return code, verifier, redirect, id
 }
 
 // ownAuth returns the correct credentials of a client (for preparing artefacts)
@@ -57,6 +108,99 @@ func ownAuth(sy *symbols, fc *flowClient) opbed.Auth {
 	return opbed.Auth{Kind: "basic", ID: fc.c.ID, Secret: fc.c.Secret}
 }
 
+// c05Req is the wire request under test
+type c05Req struct {
+	path      string
+	body      [][2]string // ordered pairs of the application/x-www-form-urlencoded body
+	query     [][2]string // ordered pairs of the URL query
+	rawBody   string      // appended verbatim to the body (malformed pairs)
+	authRaw   string      // Authorization: Basic base64(authRaw), when hasBasic
+	hasBasic  bool
+	assertion string // the one assertion string of the request (client_assertion or the jwt-bearer grant assertion)
+}
+
+func encPairs(ps [][2]string) string {
+	var parts []string
+	for _, p := range ps {
+		parts = append(parts, url.QueryEscape(p[0])+"="+url.QueryEscape(p[1]))
+	}
+	return strings.Join(parts, "&")
+}
+
+func (q *c05Req) build() *http.Request {
+	target := q.path
+	if len(q.query) > 0 {
+		target += "?" + encPairs(q.query)
+	}
+	body := encPairs(q.body)
+	if q.rawBody != "" {
+		if body != "" {
+			body += "&"
+		}
+		body += q.rawBody
+	}
+	r := httptest.NewRequest(http.MethodPost, target, strings.NewReader(body))
+	r.Header.Set("Content-Type", "application/x-www-form-urlencoded")
+	if q.hasBasic {
+		r.Header.Set("Authorization", "Basic "+base64.StdEncoding.EncodeToString([]byte(q.authRaw)))
+	}
+	return r
+}
+
+func (q *c05Req) setBody(k, v string) {
+	for i := range q.body {
+		if q.body[i][0] == k {
+			q.body[i][1] = v
+			return
+		}
+	}
+	q.body = append(q.body, [2]string{k, v})
+}
+
+func (q *c05Req) basic(id, secret string) {
+	q.hasBasic, q.authRaw = true, url.QueryEscape(id)+":"+url.QueryEscape(secret)
+}
+
+func valuesKV(l *hx.Line, p string, v url.Values) {
+	keys := make([]string, 0, len(v))
+	for k := range v {
+		keys = append(keys, k)
+	}
+	sort.Strings(keys)
+	n := 0
+	for _, k := range keys {
+		for _, x := range v[k] {
+			l.S(fmt.Sprintf("%s%d.k", p, n), k).S(fmt.Sprintf("%s%d.v", p, n), x)
+			n++
+		}
+	}
+	l.I(p+"n", int64(n))
+}
+
+// describe writes the abstract request: what net/http, url.QueryUnescape and the JWT parsers make of the wire request
+func (q *c05Req) describe(sy *symbols, l *hx.Line) {
+	r := q.build()
+	perr := r.ParseForm()
+	l.B("parse.err", perr != nil)
+	valuesKV(l, "f.", r.Form)
+	valuesKV(l, "pf.", r.PostForm)
+	u, p, ok := r.BasicAuth()
+	l.B("basic", ok)
+	if ok {
+		l.S("b.user", u).S("b.pass", p)
+		uu, err := url.QueryUnescape(u)
+		l.B("b.user.ok", err == nil).S("b.user.un", uu)
+		pp, err := url.QueryUnescape(p)
+		l.B("b.pass.ok", err == nil).S("b.pass.un", pp)
+	}
+	if q.assertion != "" {
+		l.S("tok.str", q.assertion)
+		sy.tokenKV(l, q.assertion)
+	}
+}
+
+var c05Discard = slog.New(slog.NewTextHandler(io.Discard, nil))
+
 func c05Stream(r *hx.Rand, tier string, n int, w *bufio.Writer) map[string]int {
 	if n == 0 {
 		n = 2500
@@ -66,190 +210,436 @@ func c05Stream(r *hx.Rand, tier string, n int, w *bufio.Writer) map[string]int {
 	}
 	stats := map[string]int{}
 	sy := newSymbols()
-	grants := []string{"authorization_code", "refresh_token", "client_credentials", "urn:ietf:params:oauth:grant-type:jwt-bearer",
-		"urn:ietf:params:oauth:grant-type:token-exchange", "urn:ietf:params:oauth:grant-type:device_code"}
-	endpoints := []string{"token", "token", "token", "token", "introspect", "revoke", "device_authorization"}
+	const (
+		gCode   = "authorization_code"
+		gRT     = "refresh_token"
+		gCC     = "client_credentials"
+		gJWT    = "urn:ietf:params:oauth:grant-type:jwt-bearer"
+		gTE     = "urn:ietf:params:oauth:grant-type:token-exchange"
+		gDevice = "urn:ietf:params:oauth:grant-type:device_code"
+	)
+	grants := []string{gCode, gCode, gRT, gRT, gCC, gJWT, gTE, gTE, gDevice, gDevice, "", "password"}
+	endpoints := []string{"token", "token", "token", "token", "token", "introspect", "revoke", "device_authorization"}
 	for i := 0; i < n; i++ {
 		router := hx.Pick(r, "provider", "legacy")
+		// a presentation drawn early so that configuration and material can be made for the case it needs
+		prePres := hx.Pick(r, "right", "right", "right", "right", "cc-grant-param", "assertion-right", "basic-wrong+form-public", "basic-unescaped", "basic-right")
 		cfg := opbed.Config{Router: router, S256: true, Post: r.Chance(60), PrivateKeyJWT: r.Chance(75), Refresh: r.Chance(75),
 			Caps: refstore.Caps{CC: r.Chance(75), TE: r.Chance(75), Device: r.Chance(75)}}
-		bed, err := opbed.New(cfg)
-		if err != nil {
-			panic(err)
+		if prePres == "basic-right" {
+			cfg.Post = r.Chance(25) // a client registered for client_secret_post, mostly while that method is switched off
 		}
+		st := refstore.New(refstore.SigningKeySpec{Kid: "sig1", Alg: jose.RS256, Priv: hx.Keys()[0].Priv, Pub: hx.Keys()[0].Pub})
+		bed := c05BedOn(cfg, st)
+		twin := c05BedOn(opbed.Config{Router: "provider", S256: true, Post: true, PrivateKeyJWT: true, Refresh: true,
+			Caps: refstore.Caps{CC: true, TE: true, Device: true}}, st)
+
 		cls := flowClients()
-		// one more registration: a client without the token-exchange / client-credentials / device grants
+		// a client without the token-exchange / client-credentials / device grants
 		limited := opbed.WebClient("limited", "secret-lim", "https://rp.example/cb")
 		limited.Grants = []oidc.GrantType{oidc.GrantTypeCode, oidc.GrantTypeRefreshToken}
-		cls = append(cls, &flowClient{c: limited})
-		// a native application that is nevertheless registered with a secret
+		// application type x auth method: a native application registered with a secret, a native one with client_secret_post,
+		// a web application registered without authentication
 		natsec := opbed.NativeClient("natsec", "https://rp.example/cb")
 		natsec.Auth, natsec.Secret = oidc.AuthMethodBasic, "secret-nat"
 		natsec.Grants = append(natsec.Grants, oidc.GrantTypeTokenExchange)
-		cls = append(cls, &flowClient{c: natsec})
+		natpost := opbed.NativeClient("natpost", "https://rp.example/cb")
+		natpost.Auth, natpost.Secret = oidc.AuthMethodPost, "secret-np"
+		webnone := opbed.WebClient("webnone", "", "https://rp.example/cb")
+		webnone.Auth = oidc.AuthMethodNone
+		// a secret that needs percent-encoding in a Basic header
+		enc := opbed.WebClient("enc", "p+s%2Fx y:z", "https://rp.example/cb")
+		// a secret that is not a valid percent-encoding when sent raw
+		pct := opbed.WebClient("pct", "s%zz", "https://rp.example/cb")
+		// a secret-registered client that also has a registered key (e.g. for the jwt-bearer grant)
+		webkey := opbed.WebClient("webkey", "secret-wk", "https://rp.example/cb")
+		webkey.Keys = []refstore.ClientKey{{Kid: "wk1", Pub: hx.Keys()[2].Pub}}
+		cls = append(cls, &flowClient{c: limited}, &flowClient{c: natsec}, &flowClient{c: natpost}, &flowClient{c: webnone}, &flowClient{c: enc},
+			&flowClient{c: webkey, key: hx.Keys()[2], kid: "wk1"}, &flowClient{c: pct})
 		for _, fc := range cls {
-			bed.Store.AddClient(fc.c)
+			st.AddClient(fc.c)
 		}
-		bed.Store.AddUser("user1", nil)
+		st.AddUser("user1", nil)
+		byID := map[string]*flowClient{}
+		for _, fc := range cls {
+			byID[fc.c.ID] = fc
+		}
 		endpoint := hx.Pick(r, endpoints...)
 		grant := ""
 		if endpoint == "token" {
 			grant = hx.Pick(r, grants...)
 		}
-		target := cls[r.Intn(len(cls))] // the client the artefacts belong to and (usually) the presenter claims to be
+		target := cls[r.Intn(len(cls))] // the client the material belongs to and (usually) the presenter claims to be
+		if r.Chance(35) {
+			// the corners of auth method x application type
+			target = byID[hx.Pick(r, "web", "pub", "post", "pk", "natsec", "natsec", "natpost", "natpost")]
+		}
+		if prePres == "cc-grant-param" && r.Chance(60) {
+			target = byID["pk"]
+		}
+		if prePres == "assertion-right" && r.Chance(60) {
+			target = byID[hx.Pick(r, "pk", "webkey")]
+		}
+		if prePres == "basic-unescaped" {
+			target = byID[hx.Pick(r, "pct", "enc")]
+		}
+		if prePres == "basic-right" {
+			target = byID[hx.Pick(r, "post", "natpost")]
+		}
+		if prePres == "basic-wrong+form-public" {
+			// a public client's material, so that the form's client_id alone would be enough
+			target = byID[hx.Pick(r, "pub", "pub", "webnone")]
+			if r.Chance(60) {
+				endpoint, grant = "token", hx.Pick(r, gDevice, gDevice, gCode, gRT)
+			}
+		}
 
 		l := hx.NewLine("C05").I("case", int64(i)).S("router", router).B("post", cfg.Post).B("pkjwt", cfg.PrivateKeyJWT).B("refresh", cfg.Refresh).
-			B("cap.cc", cfg.Caps.CC).B("cap.te", cfg.Caps.TE).B("cap.device", cfg.Caps.Device).S("issuer", opbed.Issuer).S("endpoint", endpoint).S("grant", grant)
-		clientsKV(l, cls)
+			B("cap.cc", cfg.Caps.CC).B("cap.te", cfg.Caps.TE).B("cap.device", cfg.Caps.Device).S("issuer", opbed.Issuer).S("endpoint", endpoint)
 
-		// ---- artefacts that are valid for `target`, so that only authentication / grant registration decide
-		form := url.Values{}
-		path := "/oauth/token"
+		// ---- genuine grant material for `target`, made at the twin provider
+		q := &c05Req{path: "/oauth/token"}
+		material := "none"
 		var accessTok, refreshTok string
-		needTokens := endpoint == "introspect" || endpoint == "revoke" || grant == "refresh_token" || strings.HasSuffix(grant, "token-exchange")
-		if needTokens || grant == "authorization_code" {
-			code, verifier, redirect := runCodeFlow(bed, target, "openid offline_access")
+		needTokens := endpoint == "introspect" || endpoint == "revoke" || grant == gRT || grant == gTE
+		pkce := target.c.Auth == oidc.AuthMethodNone || r.Chance(55)
+		if needTokens || grant == gCode {
+			code, verifier, redirect, arID := c05CodeFlow(twin, target, "openid offline_access", pkce)
 			if needTokens {
-				f := url.Values{"grant_type": {"authorization_code"}, "code": {code}, "redirect_uri": {redirect}}
+				f := url.Values{"grant_type": {gCode}, "code": {code}, "redirect_uri": {redirect}}
 				if verifier != "" {
 					f.Set("code_verifier", verifier)
 				}
-				resp := bed.Do(bed.Form("/oauth/token", f, ownAuth(sy, target)))
+				resp := twin.Do(twin.Form("/oauth/token", f, ownAuth(sy, target)))
 				accessTok, refreshTok = resp.Str("access_token"), resp.Str("refresh_token")
-			} else {
-				form.Set("code", code)
-				form.Set("redirect_uri", redirect)
+			} else if code != "" {
+				q.body = append(q.body, [2]string{"code", code}, [2]string{"redirect_uri", redirect})
+				if verifier != "" && !r.Chance(6) {
+					q.body = append(q.body, [2]string{"code_verifier", verifier})
+				}
+				material = "code"
 				if verifier != "" {
-					form.Set("code_verifier", verifier)
+					material = "code+pkce"
+				}
+				if a := st.GetAuthRequest(arID); a != nil {
+					l.S("ar.code", code).S("ar.id", arID).S("ar.client", a.ClientID).S("ar.redirect", a.RedirectURI).B("ar.done", a.Done()).S("ar.sub", a.Subject).L("ar.scopes", a.Scopes)
+					if a.CodeChallenge != nil {
+						sym := a.CodeChallenge.Challenge // the model's SHA-256 is symbolic: S256(verifier)
+						if a.CodeChallenge.Method == oidc.CodeChallengeMethodS256 && verifier != "" {
+							sym = "S256(" + verifier + ")"
+						}
+						l.S("ar.chal.c", sym).S("ar.chal.m", string(a.CodeChallenge.Method))
+					}
 				}
 			}
 		}
 		switch {
 		case endpoint == "introspect":
-			path = "/oauth/introspect"
-			form.Set("token", accessTok)
+			q.path = "/oauth/introspect"
+			q.body = append(q.body, [2]string{"token", accessTok})
+			if accessTok != "" {
+				material = "access-token"
+				if t := st.Token(bedTokenID(twin, accessTok)); t != nil {
+					l.L("g.intro.aud", t.Audience).S("g.tok.client", t.ClientID)
+				}
+			}
 		case endpoint == "revoke":
-			path = "/revoke"
-			form.Set("token", accessTok)
+			q.path = "/revoke"
+			tok := accessTok
+			if r.Chance(40) && refreshTok != "" {
+				tok = refreshTok
+				l.B("g.rt", true)
+				q.body = append(q.body, [2]string{"token_type_hint", hx.Pick(r, "refresh_token", "", "access_token")})
+			}
+			q.body = append(q.body, [2]string{"token", tok})
+			if tok != "" {
+				material = "token"
+				l.S("g.tok.client", target.c.ID)
+			}
 		case endpoint == "device_authorization":
-			path = "/device_authorization"
-			form.Set("scope", "openid")
+			q.path = "/device_authorization"
+			q.body = append(q.body, [2]string{"scope", "openid"})
+			material = "n/a"
 		default:
-			form.Set("grant_type", grant)
+			if grant != "" {
+				q.body = append(q.body, [2]string{"grant_type", grant})
+			}
 			switch grant {
-			case "refresh_token":
-				form.Set("refresh_token", refreshTok)
-			case "client_credentials":
-				form.Set("scope", "openid")
-			case "urn:ietf:params:oauth:grant-type:jwt-bearer":
-				// handled below: the grant itself is an assertion
-			case "urn:ietf:params:oauth:grant-type:token-exchange":
-				form.Set("subject_token", refreshTok)
-				form.Set("subject_token_type", string(oidc.RefreshTokenType))
-				form.Set("requested_token_type", string(oidc.AccessTokenType))
-			case "urn:ietf:params:oauth:grant-type:device_code":
-				// a device authorization approved for target
-				da := bed.Do(bed.Form("/device_authorization", url.Values{"scope": {"openid"}}, ownAuth(sy, target)))
+			case gRT:
+				q.body = append(q.body, [2]string{"refresh_token", refreshTok})
+				if refreshTok != "" {
+					material = "refresh-token"
+					if rt := st.Refresh(refreshTok); rt != nil {
+						l.S("rt.token", refreshTok).S("rt.client", rt.ClientID).S("rt.sub", rt.Subject).L("rt.scopes", rt.Scopes)
+					}
+				}
+			case gCC:
+				q.body = append(q.body, [2]string{"scope", "openid"})
+				material = "n/a"
+			case gTE:
+				sub, typ := refreshTok, string(oidc.RefreshTokenType)
+				if r.Chance(50) {
+					sub, typ = accessTok, string(oidc.AccessTokenType)
+				}
+				q.body = append(q.body, [2]string{"subject_token", sub}, [2]string{"subject_token_type", typ}, [2]string{"requested_token_type", string(oidc.AccessTokenType)})
+				if sub != "" {
+					material = "subject-token"
+				}
+				l.B("g.te", sub != "")
+			case gDevice:
+				da := twin.Do(twin.Form("/device_authorization", url.Values{"scope": {"openid"}}, ownAuth(sy, target)))
 				dc, uc := da.Str("device_code"), da.Str("user_code")
 				if uc != "" {
-					bed.Store.ApproveDevice(uc, "user1")
+					st.ApproveDevice(uc, "user1")
+					material = "approved-device-code"
+					l.S("dev.code", dc).S("dev.client", target.c.ID).B("dev.done", true)
 				}
-				form.Set("device_code", dc)
+				q.body = append(q.body, [2]string{"device_code", dc})
 			}
 		}
+		// registration change after the material exists: the target is no longer registered for the grant it is about to use
+		stripped := false
+		if r.Chance(12) {
+			g := oidc.GrantType(grant)
+			if endpoint == "device_authorization" {
+				g = oidc.GrantTypeDeviceCode
+			}
+			if g != "" {
+				var keep []oidc.GrantType
+				for _, x := range target.c.Grants {
+					if x != g {
+						keep = append(keep, x)
+					} else {
+						stripped = true
+					}
+				}
+				target.c.Grants = keep
+			}
+		}
+		clientsKV(l, cls)
 
 		// ---- the presentation under test
 		presenter := target
-		if r.Chance(12) {
+		if r.Chance(10) {
 			presenter = cls[r.Intn(len(cls))]
 		}
-		var auth opbed.Auth
-		pres := hx.Pick(r, "right", "right", "right", "wrong-secret", "none", "id-only", "post", "malformed-basic", "bad-assertion", "unknown-client")
-		l.S("pres", pres).S("caller", presenter.c.ID)
-		if grant == "urn:ietf:params:oauth:grant-type:jwt-bearer" {
+		other := cls[r.Intn(len(cls))]
+		mkAssertion := func(key *hx.Key, kid, iss string, iat, exp int64) string {
+			claims := fmt.Sprintf(`{"iss":%q,"sub":%q,"aud":[%q],"iat":%d,"exp":%d}`, iss, iss, opbed.Issuer, iat, exp)
+			tok, err := sy.sign(key, key.Algs[0], kid, []byte(claims))
+			if err != nil {
+				return "garbage"
+			}
+			return tok
+		}
+		nowS := time.Now().Unix()
+		pk := byID["pk"]
+		pres := ""
+		if grant == gJWT {
 			// the assertion is the grant; signer = a client with registered keys (pk) or someone else
-			now := time.Now().Unix()
-			key, kid, iss := cls[4].key, cls[4].kid, "pk"
+			pres = hx.Pick(r, "jwt-right", "jwt-right", "jwt-wrong-key", "jwt-unknown-issuer", "jwt-expired", "jwt-none", "jwt-garbage", "jwt-right+basic")
 			switch pres {
-			case "wrong-secret", "bad-assertion":
-				key = hx.Keys()[3]
-			case "unknown-client":
-				iss = "nobody"
-			case "none":
-				key = nil
+			case "jwt-right", "jwt-right+basic":
+				q.assertion = mkAssertion(pk.key, pk.kid, "pk", nowS-5, nowS+300)
+				material = "assertion"
+				if pres == "jwt-right+basic" {
+					q.basic(other.c.ID, hx.Pick(r, other.c.Secret, "wrong"))
+				}
+			case "jwt-wrong-key":
+				q.assertion = mkAssertion(hx.Keys()[0], pk.kid, "pk", nowS-5, nowS+300)
+			case "jwt-unknown-issuer":
+				q.assertion = mkAssertion(pk.key, pk.kid, "nobody", nowS-5, nowS+300)
+			case "jwt-expired":
+				q.assertion = mkAssertion(pk.key, pk.kid, "pk", nowS-4000, nowS-100)
+			case "jwt-garbage":
+				q.assertion = "garbage"
 			}
-			if key != nil {
-				tok := assertion(sy, l, key, kid, iss, iss, []string{opbed.Issuer}, now-5, now+300)
-				form.Set("assertion", tok)
-				l.S("auth", "assertion")
-			} else {
-				l.S("auth", "none")
+			if q.assertion != "" {
+				q.body = append(q.body, [2]string{"assertion", q.assertion})
 			}
-			auth = opbed.Auth{Kind: "none"}
 		} else {
+			pres = hx.Pick(r, "right", "right", "right", "right", "basic-right", "post-right", "basic-wrong", "post-wrong", "basic-empty", "post-empty",
+				"none", "id-only", "other-secret", "other-client", "basic+form-same", "basic+form-diff", "basic-wrong+form-public", "query-creds", "query-id",
+				"basic-malformed", "basic-unescaped", "assertion-right", "assertion-wrong-key", "assertion-expired", "assertion-wrong-type",
+				"assertion-no-type", "assertion-garbage", "assertion+basic-wrong", "unknown-client", "dup-client-id", "cc-grant-param")
+			if prePres != "right" && r.Chance(70) {
+				pres = prePres // the presentation the material was prepared for
+			}
+			id, sec := presenter.c.ID, presenter.c.Secret
+			setAssertion := func(a, typ string) {
+				q.assertion = a
+				q.body = append(q.body, [2]string{"client_assertion", a})
+				if typ != "" {
+					q.body = append(q.body, [2]string{"client_assertion_type", typ})
+				}
+			}
+			akey, akid := presenter.key, presenter.kid
+			if akey == nil {
+				akey, akid = pk.key, pk.kid // an assertion naming a client that has no registered key
+			}
 			switch pres {
 			case "right":
-				auth = ownAuth(sy, presenter)
-				if auth.Kind == "assertion" {
-					// describe the assertion on the line
-					now := time.Now().Unix()
-					auth.Assertion = assertion(sy, l, presenter.key, presenter.kid, presenter.c.ID, presenter.c.ID, []string{opbed.Issuer}, now-5, now+300)
+				switch presenter.c.Auth {
+				case oidc.AuthMethodNone:
+					q.body = append(q.body, [2]string{"client_id", id})
+				case oidc.AuthMethodPrivateKeyJWT:
+					setAssertion(mkAssertion(akey, akid, id, nowS-5, nowS+300), oidc.ClientAssertionTypeJWTAssertion)
+				case oidc.AuthMethodPost:
+					q.body = append(q.body, [2]string{"client_id", id}, [2]string{"client_secret", sec})
+				default:
+					q.basic(id, sec)
 				}
-			case "wrong-secret":
-				auth = opbed.Auth{Kind: hx.Pick(r, "basic", "post"), ID: presenter.c.ID, Secret: hx.Pick(r, "wrong", "", "secret-web")}
+			case "basic-right":
+				q.basic(id, sec)
+			case "post-right":
+				q.body = append(q.body, [2]string{"client_id", id}, [2]string{"client_secret", sec})
+			case "basic-wrong":
+				q.basic(id, hx.Pick(r, "wrong", sec+"x", "secret-web"))
+			case "post-wrong":
+				q.body = append(q.body, [2]string{"client_id", id}, [2]string{"client_secret", hx.Pick(r, "wrong", sec+"x", "secret-web")})
+			case "basic-empty":
+				q.basic(id, "")
+			case "post-empty":
+				q.body = append(q.body, [2]string{"client_id", id}, [2]string{"client_secret", ""})
 			case "none":
-				auth = opbed.Auth{Kind: "none"}
 			case "id-only":
-				auth = opbed.Auth{Kind: "id-only", ID: presenter.c.ID}
-			case "post":
-				auth = opbed.Auth{Kind: "post", ID: presenter.c.ID, Secret: presenter.c.Secret}
-			case "malformed-basic":
-				auth = opbed.Auth{Kind: "basic-raw", Raw: presenter.c.ID + "%zz:" + presenter.c.Secret}
-			case "bad-assertion":
-				now := time.Now().Unix()
-				key, iss, exp := hx.Keys()[3], presenter.c.ID, now+300
-				if r.Chance(40) && presenter.key != nil {
-					key, exp = presenter.key, now-100
+				q.body = append(q.body, [2]string{"client_id", id})
+			case "other-secret":
+				if r.Bool() {
+					q.basic(id, other.c.Secret)
+				} else {
+					q.body = append(q.body, [2]string{"client_id", id}, [2]string{"client_secret", other.c.Secret})
 				}
-				auth = opbed.Auth{Kind: "assertion", Assertion: assertion(sy, l, key, "pk1", iss, iss, []string{opbed.Issuer}, now-200, exp)}
+			case "other-client":
+				q.basic(other.c.ID, other.c.Secret)
+			case "basic+form-same":
+				q.basic(id, hx.Pick(r, sec, sec, "wrong"))
+				q.body = append(q.body, [2]string{"client_id", id})
+			case "basic+form-diff":
+				q.basic(other.c.ID, hx.Pick(r, other.c.Secret, "wrong"))
+				q.body = append(q.body, [2]string{"client_id", id})
+				if r.Bool() {
+					q.body = append(q.body, [2]string{"client_secret", sec})
+				}
+			case "basic-wrong+form-public":
+				// a confidential client in the Basic header with a wrong secret, the material's (public) client in the form
+				conf := byID[hx.Pick(r, "web", "web2", "natsec", "post")]
+				q.basic(conf.c.ID, hx.Pick(r, "wrong", ""))
+				q.body = append(q.body, [2]string{"client_id", target.c.ID})
+			case "query-creds":
+				q.query = append(q.query, [2]string{"client_id", id}, [2]string{"client_secret", sec})
+			case "query-id":
+				q.query = append(q.query, [2]string{"client_id", id})
+			case "basic-malformed":
+				q.hasBasic, q.authRaw = true, hx.Pick(r, id+"%zz:"+url.QueryEscape(sec), url.QueryEscape(id)+":"+sec+"%", id+"%2")
+			case "basic-unescaped":
+				q.hasBasic, q.authRaw = true, id+":"+sec // not form-urlencoded: `+` and `%` change under QueryUnescape
+			case "assertion-right":
+				setAssertion(mkAssertion(akey, akid, id, nowS-5, nowS+300), oidc.ClientAssertionTypeJWTAssertion)
+			case "assertion-wrong-key":
+				setAssertion(mkAssertion(hx.Keys()[3], akid, id, nowS-5, nowS+300), oidc.ClientAssertionTypeJWTAssertion)
+			case "assertion-expired":
+				setAssertion(mkAssertion(akey, akid, id, nowS-4000, nowS-100), oidc.ClientAssertionTypeJWTAssertion)
+			case "assertion-wrong-type":
+				setAssertion(mkAssertion(akey, akid, id, nowS-5, nowS+300), "urn:ietf:params:oauth:client-assertion-type:saml2-bearer")
+			case "assertion-no-type":
+				setAssertion(mkAssertion(akey, akid, id, nowS-5, nowS+300), "")
+			case "assertion-garbage":
+				setAssertion("garbage", oidc.ClientAssertionTypeJWTAssertion)
+			case "assertion+basic-wrong":
+				setAssertion(mkAssertion(akey, akid, id, nowS-5, nowS+300), oidc.ClientAssertionTypeJWTAssertion)
+				q.basic(hx.Pick(r, id, "web"), "wrong")
 			case "unknown-client":
-				auth = opbed.Auth{Kind: "basic", ID: "nobody", Secret: "x"}
-			}
-			l.S("auth", auth.Kind).S("cid", auth.ID).S("secret", auth.Secret)
-			if auth.Kind == "basic-raw" {
-				l.S("cid", "").S("malformed", "1")
+				q.basic("nobody", "x")
+			case "cc-grant-param":
+				// grant_type=client_credentials as an extra parameter of a non-token request (the Server router's VerifyClient keys on it)
+				q.body = append(q.body, [2]string{"client_id", id}, [2]string{"client_secret", sec})
+				if endpoint != "token" {
+					q.body = append(q.body, [2]string{"grant_type", gCC})
+				}
+			case "dup-client-id":
+				q.body = append(q.body, [2]string{"client_id", other.c.ID}, [2]string{"client_id", id}, [2]string{"client_secret", sec})
 			}
 		}
-		if endpoint == "token" && r.Chance(15) {
-			// grant_type carried in the URL query instead of the body
-			path += "?grant_type=" + url.QueryEscape(grant)
-			form.Del("grant_type")
-			l.B("grant.in.query", true)
+		// where grant_type travels
+		place := "body"
+		if endpoint == "token" && grant != "" {
+			k := r.Intn(100)
+			if stripped && r.Chance(45) {
+				k = 0 // the registration lacks the grant: the registered-grant check must see grant_type wherever it travels
+			}
+			switch {
+			case k < 14:
+				place = "query"
+				var nb [][2]string
+				for _, p := range q.body {
+					if p[0] != "grant_type" {
+						nb = append(nb, p)
+					}
+				}
+				q.body = nb
+				q.query = append(q.query, [2]string{"grant_type", grant})
+			case k < 18:
+				place = "body+query-differ"
+				q.query = append(q.query, [2]string{"grant_type", hx.Pick(r, gCode, gRT, gDevice)})
+			}
 		}
+		if r.Chance(3) {
+			q.rawBody = "x=%zz" // net/http's ParseForm reports an error (and keeps the pairs it could parse)
+		}
+		l.S("pres", pres).S("presenter", presenter.c.ID).S("target", target.c.ID).S("material", material).S("grant.place", place).B("stripped", stripped)
+		q.describe(sy, l)
+
 		waitClearOfSecondEdge()
 		t0 := time.Now()
-		before := len(bed.Store.TokenIDs())
-		resp := bed.Do(bed.Form(path, form, auth))
+		before := len(st.TokenIDs())
+		resp := bed.Do(q.build())
 		t1 := time.Now()
 		l.I("now0", t0.UnixNano()).I("now1", t1.UnixNano())
-		success := false
+		success, actor := false, ""
+		jarg := func(prefix string, k int) string {
+			for _, j := range resp.Journal {
+				if strings.HasPrefix(j, prefix+"(") {
+					args := strings.Split(strings.TrimSuffix(strings.TrimPrefix(j, prefix+"("), ")"), ",")
+					if k < len(args) {
+						return args[k]
+					}
+				}
+			}
+			return ""
+		}
+		reached := false
 		switch {
 		case resp.Panicked:
 		case endpoint == "introspect":
 			if a, ok := resp.JSON["active"].(bool); ok && a && resp.Status == 200 {
 				success = true
 			}
+			actor = jarg("SetIntrospectionFromToken", 2)
+			reached = actor != ""
 		case endpoint == "revoke":
-			for _, j := range resp.Journal {
-				if strings.HasPrefix(j, "RevokeToken(") && resp.Status == 200 {
-					success = true
-				}
+			actor = jarg("RevokeToken", 2)
+			reached = actor != "" || jarg("GetRefreshTokenInfo", 0) != ""
+			if reached && actor == "" {
+				actor = jarg("GetRefreshTokenInfo", 0)
 			}
+			success = jarg("RevokeToken", 2) != "" && resp.Status == 200
 		case endpoint == "device_authorization":
 			success = resp.Status == 200 && resp.Str("device_code") != ""
+			actor = jarg("StoreDeviceAuthorization", 0)
+			reached = actor != ""
 		default:
 			success = resp.Status == 200 && (resp.Str("access_token") != "" || resp.Str("id_token") != "")
-			if len(bed.Store.TokenIDs()) > before && resp.Status != 200 {
+			for _, m := range []string{"CreateAccessToken", "CreateAccessAndRefreshTokens"} {
+				if kind := jarg(m, 0); kind != "" {
+					reached = true
+					actor = jarg(m, 1)
+					if kind == "cc" || kind == "jwt" {
+						actor = jarg(m, 2) // these token requests carry no client id: the subject is the client
+					}
+				}
+			}
+			if len(st.TokenIDs()) > before && resp.Status != 200 {
 				l.B("o.orphan", true) // tokens were created although the request was refused
 			}
 		}
@@ -259,12 +649,25 @@ func c05Stream(r *hx.Rand, tier string, n int, w *bufio.Writer) map[string]int {
 		} else {
 			l.S("obs", "done")
 		}
-		l.I("o.status", int64(resp.Status)).B("o.success", success).B("o.errdoc", isErrDoc).S("o.err", resp.OAuthError())
-		b, _ := json.Marshal(resp.Journal)
-		_ = b
-		stats["endpoint-"+endpoint+"-"+shortGrant(grant)]++
+		l.I("o.status", int64(resp.Status)).B("o.success", success).B("o.errdoc", isErrDoc).S("o.err", resp.OAuthError()).S("o.actor", actor)
+		eg := endpoint
+		if grant != "" || endpoint == "token" {
+			eg += "-" + shortGrant(grant)
+		}
+		stats["endpoint-"+eg]++
+		stats["router-"+router]++
+		stats["pres-"+pres]++
+		stats["material-"+material]++
+		if reached {
+			stats["reached-grant-logic-"+eg]++
+		}
+		genuine := material != "none"
+		if genuine && !success {
+			stats["genuine-material-refused-"+eg]++
+		}
 		if success {
 			stats["success"]++
+			stats["success-"+eg]++
 		} else {
 			stats["refused-"+resp.OAuthError()]++
 		}
@@ -273,9 +676,21 @@ func c05Stream(r *hx.Rand, tier string, n int, w *bufio.Writer) map[string]int {
 	return stats
 }
 
+// bedTokenID: the storage id of an opaque access token handed out by the provider ("" if it does not decrypt)
+func bedTokenID(b *opbed.Bed, tok string) string {
+	plain, err := b.Provider.Crypto().Decrypt(tok)
+	if err != nil {
+		return ""
+	}
+	return strings.SplitN(plain, ":", 2)[0]
+}
+
 func shortGrant(g string) string {
 	if i := strings.LastIndex(g, ":"); i >= 0 {
 		return g[i+1:]
+	}
+	if g == "" {
+		return "none"
 	}
 	return g
 }
